@@ -62,7 +62,8 @@ def run_case(case, ctx):
 	from gambit.sigs.calc import calc_file_signature, calc_signature
 
 	k, prefix = case['k'], case['prefix']
-	kspec = KmerSpec(k, prefix)
+	from vlib.refmodel import kmer as _RK
+	kspec = _RK.spell_spec(KmerSpec, k, prefix, case.get('spec_spelling', 0))
 	contigs = case['contigs']
 	t = case['transform']
 	d = ctx.fresh_dir()
@@ -175,6 +176,7 @@ def run_case(case, ctx):
 	if any(set(c.upper()) - set('ACGT') for c in contigs):
 		classes.add('non_acgt')
 	classes.add(f'contigs={min(len(contigs), 4)}')
+	classes.add('spec_spelling=%d' % (case.get('spec_spelling', 0) % _RK.SPEC_SPELLINGS))
 	if case.get('poison'):
 		classes.add('after_failed_file')
 	if any(len(c) > 8192 for c in contigs):
@@ -248,7 +250,8 @@ def gen_case(draw, tier):
 		'ext': draw(st.sampled_from(['.fasta', '.fa', '.fna', '.fasta.gz', '.gz', '.txt', '', '.fa.gz'])),
 		'headers': draw(st.lists(st.text(alphabet='abcXYZ019_.| =-', min_size=1, max_size=20), min_size=0, max_size=3)),
 	}
-	return {'kind': 'genome', 'k': k, 'prefix': prefix, 'contigs': contigs, 'transform': transform, 'poison': draw(st.sampled_from([False, True, False]))}
+	return {'kind': 'genome', 'k': k, 'prefix': prefix, 'contigs': contigs, 'transform': transform, 'poison': draw(st.sampled_from([False, True, False])),
+	        'spec_spelling': draw(st.sampled_from([0, 1, 0, 2, 3, 4, 5, 6, 7]))}
 
 
 def strategy(tier):
